@@ -117,6 +117,12 @@ D = {
     "C18e": ("compute_I_F: running counter for the normal index (same slip as seeded/C18b, found independently)", "Moreau, a closed frictionless contact assembled before frictional ones"),
     "C25e": ("Revolute.angle / angle_dot become lambdas closing over self instead of bound methods", "a deep-copied system (restart workflow): deepcopy keeps the function object, so the copy's angle reads and updates the ORIGINAL joint's full-turn counter"),
     "C27e": ("Sphere.prox compares squared lengths with the unclamped radius (r z)^2", "a negative normal force z < 0 with |x| <= r |z|: the point is returned although the ball is degenerate (radius 0)"),
+    "C03e": ("Log_SO3_A guarded by `ca > -0.999` (same change as seeded/C03d, found independently)", "rotation angle in (3.0969, pi)"),
+    "C07e": ("TwoPointInteraction.l_dot: `v = self.v_P2(...); v -= self.v_P1(...)` updates the array RigidBody.v_P holds in its cache", "point 2 on a RigidBody, point 1 moving, and the same state observed twice (la_c then c, la_c then h): compliance residual non-zero at the force-form force, damper generates energy"),
+    "C09e": ("Revolute.assembler_callback stores t0 / q0 only on the first assembly", "a force law with default reference attached to a joint after the initial state was changed (set_new_initial_state, or bodies reused in a fresh System)"),
+    "C15e": ("CooMatrix.__setitem__, dense branch: self.data.frombytes(value.tobytes()) (same idea as seeded/C15b, found independently)", "a dense block, list or scalar whose dtype is not float64"),
+    "C16f": ("System.g_N_ddot / gamma_F_dot allocate with dtype=u_dot.dtype", "all bodies with integer-typed initial velocities and a persistent contact with a non-integer acceleration offset: consistent initial conditions from truncated zeta_N, zeta_F"),
+    "C22e": ("fixed_point_iteration hands np.asarray(x, dtype=float) (no copy for float x) to the map", "a map that updates its argument in place: error 0 after one iteration, nothing raises"),
     "C22b": ("fixed_point_iteration calls fun(x) without the defensive copy", "a fixed-point map that updates its argument in place (DualStormerVerlet's own map with accelerated=False does)"),
 }
 rows = []
